@@ -200,19 +200,26 @@ def seeded(argv):
                 if p.returncode != 0:
                     results.append({"id": sid, "status": "patch-does-not-apply", "detail": p.stderr[-300:]})
                     continue
-                props = [k for k, v in meta.get("detection", {}).items() if str(v).startswith("caught")] or [meta["property"]]
-                row = {"id": sid, "property": meta["property"], "checks": {}}
+                det = meta.get("detection", {})
+                expect_quiet = all(str(v).startswith("not flagged") for v in det.values()) and bool(det)
+                props = [k for k, v in det.items() if "caught" in str(v)] or [meta["property"]]
+                row = {"id": sid, "property": meta["property"], "checks": {}, "expected": "quiet" if expect_quiet else "caught"}
                 for prop in props:
                     env = dict(os.environ)
                     env.update(core.required_env())
                     env.pop("VERIF_REEXEC", None)
                     env.update({"VERIF_REPO": wt, "VERIF_REPLAY_DIR": os.path.join(base, "rp"), "VERIF_EVIDENCE_DIR": os.path.join(base, "ev"),
-                                "VERIF_MAX_REPORT": "2"})
+                                "VERIF_MAX_REPORT": "2", "VERIF_STOP_EARLY": "1"})
                     q = subprocess.run([sys.executable, os.path.join(core.VERIF, "sim", "cli.py"), prop, "quick"], env=env,
                                        capture_output=True, text=True, timeout=2400, cwd=core.VERIF)
                     cls = [ln.strip().split(" err=")[0] for ln in q.stdout.splitlines() if ln.strip().startswith("class=")]
                     row["checks"][prop] = {"exit": q.returncode, "classes": cls[:2]}
-                row["status"] = "caught" if any(c["exit"] == 1 for c in row["checks"].values()) else "missed"
+                if expect_quiet:
+                    # outside the properties as stated (DESIGN 12.7): the check has to stay quiet, like on a benign change
+                    row["status"] = "quiet-as-expected" if all(c["exit"] == 0 for c in row["checks"].values()) else "unexpected-alarm"
+                else:
+                    row["status"] = "caught" if all(c["exit"] == 1 for c in row["checks"].values()) else (
+                        "caught-in-part" if any(c["exit"] == 1 for c in row["checks"].values()) else "missed")
                 results.append(row)
                 print("%s %-4s %s %s" % (sid, meta["property"], row["status"], {k: v["classes"][:1] for k, v in row["checks"].items()}), flush=True)
             finally:
@@ -221,9 +228,11 @@ def seeded(argv):
         shutil.rmtree(base, ignore_errors=True)
         subprocess.run(["git", "-C", core.REPO, "worktree", "prune"], capture_output=True)
     caught = sum(1 for r in results if r.get("status") == "caught")
-    print("selftest-seeded: %d/%d caught, wall=%.0fs" % (caught, len(results), time.time() - t0))
-    core.write_json(os.path.join(core.VERIF, "evidence", "selftest-seeded.json"), {"results": results, "caught": caught, "total": len(results)})
-    return 0 if caught == len(results) else 1
+    quiet = sum(1 for r in results if r.get("status") == "quiet-as-expected")
+    print("selftest-seeded: %d caught by every check expected to, %d quiet as expected, of %d; wall=%.0fs" % (caught, quiet, len(results), time.time() - t0))
+    core.write_json(os.path.join(core.VERIF, "evidence", "selftest-seeded.json"),
+                    {"results": results, "caught": caught, "quiet_as_expected": quiet, "total": len(results)})
+    return 0 if caught + quiet == len(results) else 1
 
 
 # Negative controls: changes under which every claimed property still holds. No check may raise an alarm on them.
